@@ -35,6 +35,12 @@
 (*   a BETWEEN overrides both; NOW()-relative bounds fill what is missing; *)
 (*   start only => end = now + 24 h;  end only => start = 2020-01-01.      *)
 (* GeneratePartitionPaths: hours h with start <= h < end (and their days); *)
+(* since /repo 757b147 (EndInclusiveFix = TRUE) also h = end when the end  *)
+(* came from <= or BETWEEN and start < end.  EndInclusiveFix = FALSE is the*)
+(* code as written before; it is always evaluated as well (the "aw" fields *)
+(* of a case give the driver the old finding's signature should the        *)
+(* behaviour return) and Prune_AsWritten.cfg keeps it as a negative control*)
+(* for the invariant NoInclusiveLoss.                                      *)
 (* more than 50000 paths, an empty range or no existing path => unpruned.  *)
 (*                                                                         *)
 (* Property: Needed(q, layout) \subseteq Pruned(q, layout) where Needed are *)
@@ -44,6 +50,7 @@ EXTENDS SqlRewrite, Json
 
 CONSTANTS MaxFiles,     \* layouts of 1..MaxFiles files (plus the full layout)
           Depth2,       \* TRUE: also (a o b) o c
+          EndInclusiveFix, \* TRUE: current code (757b147)
           Emit
 
 VARIABLES st
@@ -143,13 +150,15 @@ Extract(tree) ==
              ssrc |-> IF s2.kind = "none" THEN [NoSrc EXCEPT !.kind = "default"] ELSE s2,
              esrc |-> IF e2.kind = "none" THEN [NoSrc EXCEPT !.kind = "default"] ELSE e2]
 
-InRange(f, s, e) == IF f.k = "h" THEN s <= f.n /\ f.n < e
-                    ELSE s < e /\ s < 24 * f.n + 24 /\ e > 24 * f.n
+Incl(x, fix) == fix /\ x.esrc.op \in {"le", "between"} /\ x.esrc.kind \in {"T", "S", "Z", "B"} /\ x.s < x.e
+InRange(f, s, e, incl) == IF f.k = "h" THEN s <= f.n /\ (f.n < e \/ (incl /\ f.n = e))
+                          ELSE s < e /\ s < 24 * f.n + 24 /\ (e > 24 * f.n \/ (incl /\ e = 24 * f.n))
 TooWide(s, e) == s < e /\ (e - s) + (e - s) \div 24 + 1 > MaxPaths
 
 \* OptimizeTablePath: the files read for one table reference
-Pruned(x, L) == IF ~x.found \/ TooWide(x.s, x.e) THEN L
-                ELSE LET P == { f \in L : InRange(f, x.s, x.e) } IN IF P = {} THEN L ELSE P
+PrunedF(x, L, fix) == IF ~x.found \/ TooWide(x.s, x.e) THEN L
+                      ELSE LET P == { f \in L : InRange(f, x.s, x.e, Incl(x, fix)) } IN IF P = {} THEN L ELSE P
+Pruned(x, L) == PrunedF(x, L, EndInclusiveFix)
 
 Qual(tree, L) == { f \in L : \E r \in RowsOf(f) : Eval(tree, r) }
 \* files holding a row that contributes to the result (every file has an x = 0 and an x = 1 row)
@@ -171,6 +180,7 @@ Blame(x, w, f) ==
          [] OTHER                          -> "unexplained"
 
 Lost(tree, w, x, L) == Needed(tree, w, L) \ Pruned(x, L)
+LostAW(tree, w, x, L) == Needed(tree, w, L) \ PrunedF(x, L, FALSE)     \* before 757b147
 
 -----------------------------------------------------------------------------
 \* three-atom trees are explored for the single-table wrapper only (state budget)
@@ -193,6 +203,8 @@ Spec == Init /\ [][Next]_vars
 Explained == st.phase = "done" => "unexplained" \notin st.labels
 \* small-scope argument used by the driver: whatever is lost in some layout is lost in a layout of at most 2 files
 SmallScope == st.phase = "done" => (st.bad # {} => \E L \in st.bad : Cardinality(L) <= 2)
+\* the mechanism repaired by 757b147 no longer loses anything (Prune_AsWritten.cfg: must be rejected)
+NoInclusiveLoss == st.phase = "done" => "inclusive-upper-bound-on-the-hour-excludes-that-hour" \notin st.labels
 \* the property (violated in the model; Prune_Equiv.cfg prints a witness)
 NeededSubsetPruned == st.phase = "done" => st.bad = {}
 
@@ -201,7 +213,8 @@ FileName(f) == IF f.k = "d" THEN (IF f.n = 0 THEN "d0" ELSE "d1")
                       [] f.n = 23 -> "h23" [] f.n = 24 -> "h24" [] f.n = 25 -> "h25"
 Names(S) == { FileName(f) : f \in S }
 Case(L) == [files |-> Names(L), pruned |-> Names(Pruned(st.x, L)), needed |-> Names(Needed(st.tree, st.w, L)),
-            lost |-> { [file |-> FileName(f), why |-> Blame(st.x, st.w, f)] : f \in Lost(st.tree, st.w, st.x, L) }]
+            lost |-> { [file |-> FileName(f), why |-> Blame(st.x, st.w, f)] : f \in Lost(st.tree, st.w, st.x, L) },
+            lostaw |-> { [file |-> FileName(f), why |-> Blame(st.x, st.w, f)] : f \in LostAW(st.tree, st.w, st.x, L) }]
 Smallest(S) == CHOOSE L \in S : \A M \in S : Cardinality(L) <= Cardinality(M)
 EmitTrace ==
     (Emit /\ st.phase = "done") =>
